@@ -335,7 +335,7 @@ type c09Case struct {
 	Mode string `json:"tx_mode,omitempty"`
 }
 
-var c09Modes = []string{"", "", "", "skip-session", "skip-config", "begin", "transaction", "prepare"}
+var c09Modes = append([]string{"", "", "", "skip-session", "skip-config", "begin", "transaction", "prepare"}, c09ExtraModes...)
 
 func tableDump(db *gorm.DB, soft bool) string { return tableDumpOf(db, tableOf(soft)) }
 
@@ -366,8 +366,9 @@ func isExecEvent(e Event) bool {
 // c09Run executes one case inside a transaction that is rolled back; returns the error, the statement events and
 // whether the table changed
 func c09Run(db *gorm.DB, rec *Recorder, c c09Case, calls []c09Call, fin c09Fin) (err error, events []Event, changed bool) {
-	base := db
+	base := c09ConfigHandle(db, c.Mode) // config-level modes (Config.DryRun / Config.PrepareStmt): a sibling handle on the same database
 	sess := &gorm.Session{AllowGlobalUpdate: c.Allow == "session", SkipDefaultTransaction: c.Mode == "skip-session", PrepareStmt: c.Mode == "prepare"}
+	c09ModeSession(c.Mode, sess)
 	base = base.Session(sess)
 	c09Kind = c.Kind
 	before := tableDumpOf(db, c09Table(c.Soft))
@@ -407,7 +408,10 @@ func c09Run(db *gorm.DB, rec *Recorder, c c09Case, calls []c09Call, fin c09Fin) 
 			return nil
 		})
 	default:
-		res = body(h)
+		var ok bool
+		if res, ok = c09ModeRun(c.Mode, h, body); !ok {
+			res = body(h)
+		}
 	}
 	events = rec.Snapshot()
 	after := tableDumpOf(db, c09Table(c.Soft))
@@ -582,12 +586,7 @@ func init() {
 			before := tableDumpOf(w.db, c09Table(soft))
 			err, events, changed := c09Run(w.db, w.rec, c, calls, fin)
 			rejected := errors.Is(err, gorm.ErrMissingWhereClause)
-			nExec := 0
-			for _, e := range events {
-				if isExecEvent(e) {
-					nExec++
-				}
-			}
+			nExec := c09StmtEvents(events)
 			r.Case("guard", fmt.Sprint(c), true)
 			r.H("guard.finisher", fin.Name)
 			r.H("guard.txmode", "mode="+mode)
@@ -770,12 +769,7 @@ func init() {
 			return
 		}
 		err, events, changed := c09Run(db, rec, c, calls, fin)
-		nExec := 0
-		for _, e := range events {
-			if isExecEvent(e) {
-				nExec++
-			}
-		}
+		nExec := c09StmtEvents(events)
 		rejected := errors.Is(err, gorm.ErrMissingWhereClause)
 		for _, cl := range calls {
 			if cl.EmptyWhere && c.Allow == "off" && c.Key == 0 {
